@@ -1507,7 +1507,7 @@ fn record(ctx: &Ctx, stats: &Mutex<GStats>, samples: &Samples, case: &GCase, o: 
             "joined" => s.samples_joined += 1,
             "verifier-parked" | "verifier-parked-end-of-hold" => {
                 s.verifier_parked_samples += 1;
-                let temp = format!("{DEST_NAME}.svspart");
+                let temp = super::temp_name().to_string();
                 if sm.dir.get(&temp) == Some(&Entry::File(published(&case.cfg, 1))) {
                     s.verifier_parked_with_complete_temp += 1;
                 }
